@@ -32,6 +32,12 @@ Four complete enumerations (all sharded by case index):
               directives and every pure probe planted in 8 comment positions (+ a ref-file
               page) of a generated skool file, through skool2asm.main / skool2html.main
               in-process.
+ (v)   SHAPE  position-dependent macros (#PC alone and feeding #PEEK/#EVAL/#FOR/#IF): all 15
+              compositions of an entry's N = 1..4 instructions into single-comment instructions
+              and multi-instruction {...} comment groups x every comment position the shape has
+              (title, description, register, start comment, a mid-block comment before every
+              unit but the first, the comment of every instruction / group, end comment) x all
+              9 base/case configurations, through skool2asm.main / skool2html.main.
 
 Oracle: expansion == macroast evaluation of the same AST in the same state (ASM and HTML
 writers separately); ASM expansion == html.unescape(HTML expansion) for mode-independent
@@ -62,7 +68,8 @@ PROPERTY = 'C17'
 NEEDS_C = False
 STOP_AFTER = 150       # violations per section per shard after which that section stops enumerating
 REQUIRED_GUARDS = ('expr_exact', 'expr_truth_only', 'expr_undefined', 'expr_bare_precedence', 'expr_negative', 'macro_depth1', 'macro_depth2', 'macro_depth3',
-                   'macro_hash', 'config_variants', 'hist_merged_targets_probed', 'probe_expansions', 'tool_runs', 'tool_positions_compared', 'style_illegal')
+                   'macro_hash', 'config_variants', 'hist_merged_targets_probed', 'probe_expansions', 'tool_runs', 'tool_positions_compared', 'style_illegal',
+                   'shape_positions_compared', 'shape_end_comment_after_group', 'shape_mid_block_after_group', 'shape_pos_g', 'shape_pos_i', 'shape_pos_m', 'shape_pos_e')
 
 # ------------------------------------------------------------------------------ fixtures
 SKOOL = """@start
@@ -952,6 +959,170 @@ def run_tools(hist, cfg, fam, stats=None):
     return res
 
 
+# ------------------------------------------------------------------------------ (v) entry shapes
+# Position-dependent macros.  "In an entry header (i.e. title, description, register
+# description or start comment), the #PC macro expands to the address of the first instruction
+# in the entry. In a mid-block comment, [...] the following instruction. In an instruction-level
+# comment, [...] the address of the instruction. In a block end comment, [...] the address of
+# the last instruction in the entry."  An entry shape is a composition of its N one-byte
+# instructions into consecutive comment units: a part of size 1 is an instruction with its own
+# comment, a part of size >= 2 is a multi-instruction comment group `{...}`.  All compositions of
+# N = 1..4 are generated (15 shapes: no group, a group at the start / in the middle / at the
+# end, two groups, one group covering the whole entry), and the position-dependent probe is
+# planted in every comment position each shape has.
+SHAPE_INSTRUCTIONS = (('XOR A', 175), ('INC A', 60), ('DEC A', 61), ('RET', 201))
+SHAPE_MAX = 4
+
+
+def compositions(n):
+    """All ordered partitions of n (tuples of positive part sizes), in a fixed order."""
+    if n == 0:
+        return [()]
+    out = []
+    for first in range(1, n + 1):
+        for rest in compositions(n - first):
+            out.append((first,) + rest)
+    return out
+
+
+def shapes():
+    return [c for n in range(1, SHAPE_MAX + 1) for c in compositions(n)]
+
+
+def shape_probe():
+    """Every macro whose expansion depends on the current instruction: #PC itself and #PC
+    feeding #PEEK (the opcode there), #EVAL, #N and a #FOR range."""
+    pc = ('imac', ('PC',))
+    return S(('PC',), '|', ('PEEK', pc), '|', EV(B('+', pc, num(1)), num(16), num(4)), '|',
+             ('FOR', pc, B('+', pc, num(1)), None, None, 'n', S(LV()), lit(';'), None), '|', ('IF', B('>', pc, num(0)), S(('PC',)), lit('none')))
+
+
+def shape_layout():
+    """[(entry index, address, shape, {marker id: (kind, expected #PC)})] and the base memory."""
+    out = []
+    mem = {}
+    for k, shape in enumerate(shapes()):
+        a0 = ENTRY0 + 16 * k
+        n = sum(shape)
+        pos = {}
+        for p in 'tdrs':
+            pos['{}{}'.format(p, k)] = (p, a0)
+        i = 0
+        for gi, size in enumerate(shape):
+            if i > 0:
+                # a mid-block comment before this unit: after a group / before a group / between singles
+                pos['m{}x{}'.format(k, i)] = ('m', a0 + i)
+            # the comment of the unit: of the instruction, or of the group's first instruction
+            pos['c{}x{}'.format(k, i)] = ('g' if size > 1 else 'i', a0 + i)
+            i += size
+        pos['e{}'.format(k)] = ('e', a0 + n - 1)
+        for j in range(n):
+            mem[a0 + j] = SHAPE_INSTRUCTIONS[j][1]
+        out.append((k, a0, shape, pos))
+    return out, mem
+
+
+def shape_skool(text):
+    mk = lambda mid: '~{0}~{1}~/{0}~'.format(mid, text)
+    lines = ['@start']
+    for k, a0, shape, pos in shape_layout()[0]:
+        lines += ['; ' + mk('t%d' % k), ';', '; ' + mk('d%d' % k), ';', '; A ' + mk('r%d' % k), ';', '; ' + mk('s%d' % k)]
+        i = 0
+        for size in shape:
+            if i > 0:
+                lines.append('; ' + mk('m{}x{}'.format(k, i)))
+            for j in range(size):
+                ctl = 'c' if i + j == 0 else ' '
+                ins = '{}{} {}'.format(ctl, a0 + i + j, SHAPE_INSTRUCTIONS[i + j][0])
+                if size == 1:
+                    ins += ' ; ' + mk('c{}x{}'.format(k, i))
+                elif j == 0:
+                    ins += ' ; {' + mk('c{}x{}'.format(k, i))
+                elif j == size - 1:
+                    ins += ' ; }'
+                else:
+                    ins += ' ;'
+                lines.append(ins)
+            i += size
+        lines += ['; ' + mk('e%d' % k), '']
+    return '\n'.join(lines) + '\n'
+
+
+SHAPE_KIND_NAMES = {'t': 'title', 'd': 'description', 'r': 'register', 's': 'start comment', 'm': 'mid-block comment', 'i': 'instruction comment',
+                    'g': 'comment of a multi-instruction group', 'e': 'end comment'}
+
+
+def run_shapes(cfg, fam, stats=None):
+    """Every entry shape x every comment position, through skool2asm and skool2html."""
+    res = []
+    base, case = cfg
+    probe = shape_probe()
+    layout, mem = shape_layout()
+    text = render_family(probe, fam, {}, ('~',))
+    d = tools.workdir()
+    name = 'shapes{}{}{}'.format(base, case, fam)
+    path = tools.write_file(name + '.skool', shape_skool(text), d)
+    opts = {0: [], 10: ['-D'], 16: ['-H']}[base] + {0: [], 1: ['-l'], 2: ['-u']}[case]
+    try:
+        _clear_caches()
+        _arm(TOOL_HORIZON)
+        ra = tools.run_tool('skool2asm', ['-q', '-w', '-P', 'line-width=4000'] + opts + [path])
+        _disarm()
+        _clear_caches()
+        _arm(TOOL_HORIZON)
+        rh = tools.run_tool('skool2html', ['-q', '-d', os.path.join(d, name + '-html')] + opts + [path])
+        _disarm()
+    except ExpansionTimeout:
+        _disarm()
+        return [('tool-error', text, 'a tool run did not terminate within {} CPU-seconds'.format(TOOL_HORIZON), '')]
+    if stats is not None:
+        stats.counters['tool_runs'] += 2
+    if ra.rc or rh.rc:
+        return [('tool-error', text, 'skool2asm: {!r}; skool2html: {!r}'.format(ra, rh), '')]
+    hdir = os.path.join(d, name + '-html', name)
+    import shutil
+    st = M.State(mem, 0)
+    ncmp = 0
+    for k, a0, shape, pos in layout:
+        f = os.path.join(hdir, 'asm', '{}.html'.format(a0))
+        page = tools.read_file(f, False) if os.path.exists(f) else ''
+        for mid, (kind, pc) in pos.items():
+            st.pc = pc
+            ea = expected(probe, st, M.Mode(False, base, case))[0]
+            eh = expected(probe, st, M.Mode(True, base, case))[0]
+            pat = re.compile('~{0}~(.*?)~/{0}~'.format(re.escape(mid)), re.S)
+            ma = pat.findall(ra.out)
+            mh = pat.findall(page)
+            where = '{} of an entry of shape {} (instructions at {}-{}; documented #PC {})'.format(
+                SHAPE_KIND_NAMES[kind], '+'.join(str(x) for x in shape), a0, a0 + sum(shape) - 1, pc)
+            tag = 'shape={} pos={}'.format('+'.join(str(x) for x in shape), kind)
+            ncmp += 1
+            if stats is not None:
+                stats.counters['shape_pos_' + kind] += 1
+                if kind == 'e' and shape[-1] > 1:
+                    stats.counters['shape_end_comment_after_group'] += 1
+                if kind == 'm' and mid.endswith('x%d' % shape[0]) and shape[0] > 1:
+                    stats.counters['shape_mid_block_after_group'] += 1
+            if len(ma) != 1:
+                res.append(('tool-asm', text, '{}: marker found {} times in skool2asm output'.format(where, len(ma)), tag))
+                continue
+            if not mh or len(set(mh)) != 1:
+                res.append(('tool-html', text, '{}: marker found with {} distinct contents in the entry page'.format(where, len(set(mh))), tag))
+                continue
+            va, vh = ma[0], _html.unescape(mh[0])
+            if va != ea:
+                res.append(('asm!=ref', text, '{}: skool2asm gives {!r}, documented {!r}'.format(where, va, ea), tag))
+            if vh != eh:
+                res.append(('html!=ref', text, '{}: skool2html gives {!r}, documented {!r}'.format(where, vh, eh), tag))
+            if va != vh:
+                res.append(('asm!=html', text, '{}: skool2asm {!r} != skool2html {!r}'.format(where, va, vh), tag))
+    shutil.rmtree(os.path.join(d, name + '-html'), ignore_errors=True)
+    if stats is not None:
+        stats.evaluations += ncmp
+        stats.counters['shape_positions_compared'] += ncmp
+    return res
+
+
 # ------------------------------------------------------------------------------ driver
 def bounds(tier):
     if tier == 'quick':
@@ -978,6 +1149,9 @@ def _cases(tier, seed, env_state):
     for hist, d, new, c in nodes:
         if d <= b['tool'] and new:
             yield ('tool', (hist, d, c))
+    for c in CONFIGS:
+        for fam in fams:
+            yield ('shape', (c, fam))
 
 
 def _shard(shard, nshards, tier, seed):
@@ -1004,7 +1178,7 @@ def _run_shard(stats, shard, nshards, tier, seed, cfg):
         return W[c]
     env_state = writers(cfg).state
     maxdepth = 0
-    vcount = {'expr': 0, 'macro': 0, 'macro-cfg': 0, 'hist': 0, 'tool': 0}
+    vcount = {'expr': 0, 'macro': 0, 'macro-cfg': 0, 'hist': 0, 'tool': 0, 'shape': 0}
     for i, (section, payload) in core.shard_iter(_cases(tier, seed, env_state), shard, nshards):
         sec = section
         if section in ('macro', 'macro-cfg'):
@@ -1086,6 +1260,15 @@ def _run_shard(stats, shard, nshards, tier, seed, cfg):
                                 {'section': 'tool', 'hist': list(hist), 'cfg': cfg, 'fam': fam},
                                 'after @expand of {}: {}'.format(names, detail),
                                 tags={'section': 'tool', 'kind': kind, 'text': text, 'feat': 'loop_separator_has_html_special' if ' & ' in text else ''}, order=i)
+        elif section == 'shape':
+            c, fam = payload
+            stats.traces += 1
+            stats.nontriv(('shape', c, fam))
+            for kind, text, detail, tag in run_shapes(c, fam, stats):
+                stats.violation('shape/{}/{}'.format(tag, kind), {'section': 'shape', 'cfg': c, 'fam': fam}, detail,
+                                tags={'section': 'shape', 'kind': kind, 'text': text, 'feat': tag}, order=i)
+            if c == cfg:
+                stats.sample({'section': 'shape', 'shapes': ['+'.join(str(x) for x in sh) for sh in shapes()], 'probe': render_family(shape_probe(), fam, {}, ('~',))})
         vcount[sec] += stats.n_violations - n0
     stats.counters['expansions'] += sum(w.nexp for w in W.values())
     return stats
@@ -1104,7 +1287,7 @@ def run(tier, seed):
              'per-nesting-level string styles); every AST of depth <= 2 also under the other 8 base/case configurations; (iii) BFS over 16 state-changing macros (incl. #POKES at 0, 1, 16383, 16384, 65534, 65535 and runs ending at 65535 / starting at 0) to '
              'depth {}: states = distinct canonical reference states (variables, poked cells, snapshot stack, defined macros); every transition target (merged or not) '
              'replayed on fresh AsmWriter+HtmlWriter and probed with 32 macros + snapshot-stack drain{}; (iv) every distinct state to depth {} through skool2asm/skool2html '
-             'with every pure probe in 8 comment positions + a ref-file page. evaluations = macro texts (tool: comment positions) compared with the reference; '
+             'with every pure probe in 8 comment positions + a ref-file page; (v) the #PC-dependent probe in every comment position of all 15 compositions of 1..4 instructions into single comments and multi-instruction comment groups, under all 9 base/case configurations, through both tools. evaluations = macro texts (tool: comment positions) compared with the reference; '
              'transitions = real expansions of state-changing macros; non-trivial = macro nesting depth >= 2 or history length >= 2'.format(
                  '' if tier == 'quick' else ', with and without spaces', '' if tier == 'quick' else ' (+ depth 4 over 3+3 contexts in the base style and 28 global styles)',
                  1500 if tier == 'quick' else 8000, '' if tier == 'quick' else ' and in every pair of string-group slots', b['hist'],
@@ -1125,6 +1308,8 @@ def run(tier, seed):
             'plain ASCII (and 94/96/#/&/</>); empty parameters when delimiter == separator; whitespace at the edges of a #LET value (ASM strips it, HTML keeps it); '
             '#FORMAT case conversion of nested macro source; #POPS on an empty stack; replacement fields of undefined variables; POKEname for a name pushed more than once',
             '#PC at the writer seam is set by the harness (writer.pc); its per-position semantics are checked at tool level',
+            '#PC in the comment of a multi-instruction {..} group is taken to be the address of the group\'s first instruction (the documentation says "the address of the '
+            'instruction"); mid-block comments are placed only between comment units, never inside a group',
             'module-level caches are emptied only at simulated process start (beginning of a case), never within a case',
             'an expansion that uses more than 1 CPU-second (tool run: 20) is reported as non-terminating (the longest legitimate one takes ~20 ms)',
             'after 150 violations in one section of one shard that section stops enumerating (reported under caps_hit); the verdict is already decided',
@@ -1164,4 +1349,6 @@ def replay(case):
         return [d for _, _, d in run_history(tuple(case['hist']), cfg, case['fam'])]
     if sec == 'tool':
         return [d for _, _, d in run_tools(tuple(case['hist']), cfg, case['fam'])]
+    if sec == 'shape':
+        return [d for _, _, d, _ in run_shapes(cfg, case['fam'])]
     raise ValueError(sec)
